@@ -46,13 +46,19 @@ Lemma witness_lostg :
     quiescent (final src_tree cfg_lostg sched_lostg) = true /\ wdone (final src_tree cfg_lostg sched_lostg) = false /\ ph (final src_tree cfg_lostg sched_lostg) = PWaitNotify /\ x_nog (final src_tree cfg_lostg sched_lostg) = true /\ outcome_ok cfg_lostg sched_lostg (final src_tree cfg_lostg sched_lostg) (trace src_tree cfg_lostg sched_lostg) = false.
 Proof. vm_compute. repeat split; reflexivity. Qed.
 
-(* S18: TerminateStream, then an upstream reset is seen by the processError of phase UpFilter *)
+(* S18 (repaired by 0c05b6e5a: the direct-response branch resets the abandoned upstream stream, so no further upstream reset can
+   arrive): TerminateStream, then an upstream reset seen by the processError of phase UpFilter - on the switch set back *)
+Definition src_no_direct_reset : srcp := src_tree <| direct_resets_upstream := false |>.
 Definition cfg_upf : cfg := plain_cfg <| c_recv := [{| f_phase := 0%nat; f_code := 403; f_verdicts := [] |}] |>.
 Definition sched_upf : list step :=
   repeat Worker 12 ++ [Env (EvTerminate 403); Worker; Env (EvUpReset 0 RsRemoteReset)] ++ repeat Worker 6.
 Lemma witness_upf :
-    quiescent (final src_tree cfg_upf sched_upf) = true /\ wdone (final src_tree cfg_upf sched_upf) = true /\ cleaned (final src_tree cfg_upf sched_upf) = false /\ g_started (summ src_tree cfg_upf sched_upf) = false /\ x_upf (final src_tree cfg_upf sched_upf) = true /\
-  outcome_ok cfg_upf sched_upf (final src_tree cfg_upf sched_upf) (trace src_tree cfg_upf sched_upf) = false.
+    quiescent (final src_no_direct_reset cfg_upf sched_upf) = true /\ wdone (final src_no_direct_reset cfg_upf sched_upf) = true /\ cleaned (final src_no_direct_reset cfg_upf sched_upf) = false /\ g_started (summ src_no_direct_reset cfg_upf sched_upf) = false /\ x_upf (final src_no_direct_reset cfg_upf sched_upf) = true /\
+  outcome_ok cfg_upf sched_upf (final src_no_direct_reset cfg_upf sched_upf) (trace src_no_direct_reset cfg_upf sched_upf) = false.
+Proof. vm_compute. repeat split; reflexivity. Qed.
+Lemma witness_upf_repaired :
+  wdone (final src_tree cfg_upf sched_upf) = true /\ cleaned (final src_tree cfg_upf sched_upf) = true /\
+  g_reply_kind (summ src_tree cfg_upf sched_upf) = Some (KHijack, 403) /\ up_alive (final src_tree cfg_upf sched_upf) = false.
 Proof. vm_compute. repeat split; reflexivity. Qed.
 
 (* --- the two repaired defects, shown on the source switches set back --- *)
@@ -108,4 +114,16 @@ Lemma witness_fresh_cursor :
   let s0 := next_request src_tree (final src_tree cfg_park drive) 0 in
   let r := run src_tree cfg_deny_head s0 sched_plain in
   rcursor s0 = 0%nat /\ g_new (gs_outs gs0 (snd r)) = 0%nat /\ g_reply_kind (gs_outs gs0 (snd r)) = Some (KHijack, 403).
+Proof. vm_compute. repeat split; reflexivity. Qed.
+
+(* the timed-out attempt's stream is not reset by the timer callback and the retry abandons it / the retry finalises the request
+   headers again: both switches set to the defective value *)
+Definition src_timer_no_reset : srcp := src_tree <| timers_reset_stream := false |>.
+Definition cfg_pertry : cfg := plain_cfg <| c_retry_on := true |> <| c_try_timeout := true |>.
+Definition sched_pertry : list step := repeat Worker 12 ++ [Env (EvPerTry 0)] ++ drive.
+Lemma witness_timer_no_reset : g_leak (summ src_timer_no_reset cfg_pertry sched_pertry) = true /\ g_leak (summ src_tree cfg_pertry sched_pertry) = false.
+Proof. vm_compute. split; reflexivity. Qed.
+Definition src_refinalize : srcp := src_tree <| retry_refinalizes := true |>.
+Lemma witness_refinalize : g_fin_bad (summ src_refinalize cfg_pertry sched_pertry) = true /\ g_fin_bad (summ src_tree cfg_pertry sched_pertry) = false /\
+  g_new (summ src_tree cfg_pertry sched_pertry) = 2%nat.
 Proof. vm_compute. repeat split; reflexivity. Qed.
